@@ -74,6 +74,33 @@ def run (ctx):
       ctx.ob('R-EFFECT', cyc, "after `%s` the task is neither re-queued nor re-run" % h.text(30), not rq and not again,
              "handler returns without touching the ready queue" if not rq and not again else
              "the handler continues to `%s`: a finished / failed task is %s" % ((rq + again)[0].text(40), "run again" if again else "re-queued"), (mod, h.ast), 'D2')
+  # what the scheduler does *inside* that handler must not fail either: formatting the failed task (print / log with the task as an
+  # argument calls its __str__) is wrapped in a try of its own, or every task class's __str__ is total (conversions and getattr with a
+  # default only - `self.gen.gi_frame.f_lineno` is not: a generator that has finished has no frame)
+  def total_str (f_):
+    for x_ in ast.walk(f_.node):
+      if isinstance(x_, ast.Attribute) and isinstance(x_.value, ast.Attribute) and isinstance(x_.ctx, ast.Load) and norm(x_.value.value).startswith('self'): return False, norm(x_)
+      if isinstance(x_, ast.Subscript) and isinstance(x_.ctx, ast.Load): return False, norm(x_)
+    return True, ''
+  strs_ = [(k_, k_.methods['__str__']) for k_ in mod.classes.values() if '__str__' in k_.methods and any(b_.name == 'BaseTask' for b_ in k_.mro())]
+  partial_ = [(k_, f_, total_str(f_)[1]) for k_, f_ in strs_ if not total_str(f_)[0]]
+  for n in tex:
+    for h in [h for h in g.handlers_for(n) if h.ast.type is None or norm(h.ast.type) in ('Exception', 'BaseException')]:
+      tv_ = None
+      for c_ in q.node_calls(n):
+        if call_name(c_) == 'execute' and isinstance(c_.func, ast.Attribute) and isinstance(c_.func.value, ast.Name): tv_ = c_.func.value.id
+      if tv_ is None: continue
+      for x in g.reachable(h, exc=False):
+        if x.kind in ('handler',) or x.ast is None: continue
+        fm = [c_ for c_ in q.node_calls(x) if call_name(c_) in ('print', 'str', 'repr', 'debug', 'info', 'warning', 'error', 'exception', 'format') and any(isinstance(a_, ast.Name) and a_.id == tv_ for a_ in c_.args)]
+        if not fm: continue
+        inner = [t_ for t_ in g.try_of.get(x, ()) if any(y_ is x.ast or any(z_ is x.ast for z_ in ast.walk(y_)) for y_ in t_.body) and t_ is not g.try_of.get(n, [None])[-1]]
+        protected = any(any(hh_.type is None or norm(hh_.type) in ('Exception', 'BaseException') for hh_ in t_.handlers) for t_ in inner)
+        good = protected or not partial_
+        ctx.ob('R-CONTAIN', cyc, "reporting a failed task cannot itself fail (`%s`)" % norm(fm[0])[:40], good,
+               "inside its own try" if protected else "every task __str__ is total" if good else
+               "`%s` formats the failed task outside any try, and %s.__str__ evaluates `%s`, which raises for a task whose generator has finished: the exception leaves cycle() and ends Scheduler.run - "
+               "one failing task stops every task, sleeper and timer" % (norm(fm[0])[:50], partial_[0][0].name, partial_[0][2]), (mod, x.ast), 'D2')
   for n in rex:
     ca = [h for h in g.handlers_for(n) if h.ast.type is None or norm(h.ast.type) in ('Exception', 'BaseException')]
     ctx.ob('R-CONTAIN', cyc, "a failing blocking operation is caught by the scheduler", bool(ca) and not g.raises_out(n), "catch-all around rv.execute()", (mod, n.ast), 'D2')
